@@ -130,7 +130,7 @@ class ExtractSelected(LibModel):
     constraints are handed to properties_to_expression_tree unchanged (C13; laziness for C07)."""
     qual = 'predicate:extract_selected_variable_and_expression'
     cls = None
-    props = ('C13', 'C07')
+    props = ('C13', 'C07', 'C14')
     modes = ('sound',)
     trusted = ("properties_to_expression_tree builds the left-folded AND of Attribute(var, f) == v (contract PropertiesToTree)",
                "builtin filter() is lazy (A6)")
@@ -223,6 +223,11 @@ class ExtractSelected(LibModel):
             s2 = its[0][0].clone()
             s2.ghost['materialised'] = True
             return [(s2, Obj('materialised_list'))]
+        if len(its) == 1 and isinstance(its[0][1], Obj) and its[0][1].kind == 'registry_values':
+            # the registry is read here and now (C14: it is read when the variable is evaluated)
+            s2 = its[0][0].clone()
+            s2.ghost['registry_snapshot'] = True
+            return [(s2, Obj('materialised_list'))]
         return super().listcomp(eng, st, e)
 
     def f_list(self, eng, st, args, kwargs, node):
@@ -236,7 +241,7 @@ class ExtractSelected(LibModel):
     f_sorted = f_list
 
     def f_yield_class_values_from_cache(self, eng, st, args, kwargs, node):
-        return [(st, Obj('registry_values'))]
+        return [(st, Obj('registry_values', {'args': args, 'kwargs': kwargs}))]
 
     def genexp(self, eng, st, e):
         return [(st, Obj('genexp', {'node': e, 'env': dict(st.locals)}))]
@@ -278,6 +283,26 @@ class ExtractSelected(LibModel):
         elif st.ghost['dom_case'] == 'single':
             ok = isinstance(src, Obj) and src.kind == 'from' and st.ghost['from']['domain'].kind == 'userdomain'
             eng.oblige(st, "C13/extract/single-value-domain-is-kept", z3.BoolVal(bool(ok)), case=tag)
+        if st.ghost['dom_case'] == 'none' and st.ghost['reg']:
+            # C14: no domain given, something registered: the variable ranges over the registry of T and its subclasses,
+            # read (classes and instances) when the values are first pulled
+            d = src.data.get('domain') if isinstance(src, Obj) and src.kind == 'from_new' else None
+            lazy = isinstance(d, Obj) and d.kind == 'genexp' and not st.ghost.get('registry_snapshot')
+            eng.oblige(st, "C14/extract/registry-is-read-lazily-not-at-declaration", z3.BoolVal(bool(lazy)), case=tag)
+            ok = False
+            if lazy:
+                it = d.data['node'].generators[0].iter
+                ok = (isinstance(it, ast.Call) and isinstance(it.func, ast.Name) and it.func.id == 'yield_class_values_from_cache'
+                      and len(it.args) >= 2 and isinstance(it.args[1], ast.Name) and it.args[1].id == 'symbolic_cls'
+                      and isinstance(it.args[0], ast.Attribute) and it.args[0].attr == '_cache_'
+                      and not any(k.arg == 'cache_keys' and not (isinstance(k.value, ast.Constant) and k.value.value is None)
+                                  for k in it.keywords)
+                      and not d.data['node'].generators[0].ifs and len(d.data['node'].generators) == 1
+                      and isinstance(d.data['node'].generators[0].target, ast.Tuple) and len(d.data['node'].generators[0].target.elts) == 2
+                      and isinstance(d.data['node'].elt, ast.Name)
+                      and d.data['node'].elt.id == getattr(d.data['node'].generators[0].target.elts[1], 'id', None))
+            eng.oblige(st, "C14/extract/ranges-over-the-registry-of-T-with-classes-looked-up-at-evaluation", z3.BoolVal(bool(ok)),
+                       case=tag)
         eng.oblige(st, "C07/extract/the-supplied-iterable-is-not-consumed-here", z3.BoolVal(not st.ghost.get('materialised')), case=tag)
         pt = st.ghost.get('ptree_args')
         eng.oblige(st, "C13/extract/field-constraints-are-passed-on-unchanged",
